@@ -85,7 +85,8 @@ def check(ctx, prop, fam, binary, executions, tag, fini=True):
     if fini:
         executions = with_fini(executions)
     ctx.notes["ops_" + tag] = op_histogram(executions)
-    return vlib.check_executions(ctx, binary, executions, tag, SPECDIR, f["module"], "%s_%s.cfg" % (f["module"], prop),
+    # replay files are named after the tag: the family prefix tells replay() which driver / trace specification to use
+    return vlib.check_executions(ctx, binary, executions, "%s_%s" % (fam, tag), SPECDIR, f["module"], "%s_%s.cfg" % (f["module"], prop),
                                  make_key_of(prop, fam), driver_args=f["args"], driver_timeout=1200, tlc_timeout=1500)
 
 
@@ -616,23 +617,33 @@ def run_prop(ctx, prop, rule):
     return vlib.finish(ctx, "model_checking", rule)
 
 
+def family_of(path, ops):
+    """family of a replay file: from its name (files written by this check start with the family), else from its operations"""
+    base = os.path.basename(path)
+    for fam in FAMILIES:
+        if base.startswith(fam + "_"):
+            return fam
+    toks = [l.split() for l in ops if l.split()[0] != "fini"]
+    kinds = set(t[2] for t in toks if t[0] == "new" and len(t) > 2)
+    names = set(t[0] for t in toks)
+    if kinds & set(c02.KINDS):
+        return "table"
+    if kinds & set(c03.KINDS):
+        return "seq"
+    if names & {"insertHint", "removeKey", "removeAt", "removeFront", "removeBack", "bulk", "bulkself", "insertref", "insertrefh", "count"}:
+        return "map"
+    if any(len(t) == 5 for t in toks):
+        return "table"
+    if any(len(t) in (2, 3) for t in toks):
+        return "map"
+    return "seq"
+
+
 def replay_prop(ctx, prop, path):
-    """a replay file is one op sequence; its family is recognised from its operations"""
     execs = vlib.read_ops_file(path)
     bins = dict(zip(("seq", "table", "map"), build()))
     for e in execs:
-        toks = [l.split() for l in e]
-        kinds = set(t[2] for t in toks if t[0] == "new" and len(t) > 2)
-        opsn = set(t[0] for t in toks)
-        if kinds & set(c02.KINDS) or any(len(t) == 5 for t in toks if t[0] != "new"):
-            fam = "table"
-        elif kinds & set(c03.KINDS):
-            fam = "seq"
-        elif opsn & {"insertHint", "removeKey", "removeAt", "removeFront", "removeBack", "bulk", "bulkself", "insertref",
-                     "insertrefh", "count"} or any(len(t) == 2 for t in toks if t[0] not in ("fini",)):
-            fam = "map"
-        else:
-            fam = "seq"
+        fam = family_of(path, e)
         check(ctx, prop, fam, bins[fam], [e], "replay", fini=False)
     return vlib.finish(ctx, "model_checking", "replay of one op sequence")
 
@@ -650,3 +661,140 @@ def run(ctx):
 
 def replay(ctx, path):
     return replay_prop(ctx, "C04", path)
+
+
+# ---------------------------------------------------------------------------------------------
+# binding self-test of the trace specifications (./check C04 --selftest, ./check C05 --selftest): traces recorded from
+# the real classes are accepted; the same traces with ONE corrupted observation are rejected for the expected reason
+
+def selftest_prop(ctx, prop):
+    import json
+    bins = dict(zip(("seq", "table", "map"), build()))
+    rng = ctx.rng
+    execs = {"seq": [rand_seq(rng, 60, ("list",)), rand_seq(rng, 60, ("poollist",)), rand_seq(rng, 60, ("array",))],
+             "table": [rand_table(rng, 60, ("hashmap",)), rand_table(rng, 60, ("poolmap",))],
+             "map": [rand_map(rng, 60, False, 6), rand_map(rng, 60, True, 4)]}
+    evs = {}
+    for fam, ex in execs.items():
+        trace = os.path.join(ctx.work, "selftest_%s.ndjson" % fam)
+        vlib.run_driver(bins[fam], ex, trace, args=FAMILIES[fam]["args"])
+        evs[fam] = [json.loads(x) for x in open(trace).read().splitlines()]
+
+    def validate(fam, es, name):
+        p = os.path.join(ctx.work, "selftest_%s_%s.ndjson" % (fam, name))
+        with open(p, "w") as f:
+            for e in es:
+                f.write(json.dumps(e, separators=(",", ":")) + "\n")
+        mod = FAMILIES[fam]["module"]
+        r, mism, done = vlib.validate_trace(SPECDIR, mod, "%s_%s.cfg" % (mod, prop), p)
+        return mism, done, r
+
+    def pick(es, pred):
+        for i, e in enumerate(es):
+            if e["op"] != "reset" and pred(e):
+                return i
+        return None
+
+    def bump(field, idx, by=1):
+        def f(es):
+            i = pick(es, lambda e: e["op"] not in ("fini", "new") and sum(len(c) for c in e.get("c", [[1]])) > 0)
+            if i is None:
+                return False
+            es[i][field] = list(es[i][field]); es[i][field][idx] += by
+            return True
+        return f
+
+    def setfield(field, value, pred=lambda e: True):
+        def f(es):
+            i = pick(es, pred)
+            if i is None:
+                return False
+            es[i][field] = value
+            return True
+        return f
+
+    def seq_identity(es):            # a surviving list element shows up with another serial
+        i = pick(es, lambda e: e["op"] == "append" and e["kind"][e["i"] - 1] == "list" and len(e["c"][e["i"] - 1]) >= 2)
+        if i is None:
+            return False
+        j = es[i]["i"] - 1
+        old = es[i]["c"][j][0][1]
+        es[i]["c"][j][0][1] = 9999
+        es[i]["bk"][j] = [9999 if s == old else s for s in es[i]["bk"][j]]
+        es[i]["its"] = [t for t in es[i]["its"] if t[0] != old]
+        es[i]["lt"][0] = max(es[i]["lt"][0], 9999)
+        return True
+
+    def seq_adopted(es):             # the element an append created carries a serial that existed before the step
+        i = pick(es, lambda e: e["op"] == "append" and e["kind"][e["i"] - 1] == "list" and len(e["c"][e["i"] - 1]) >= 2)
+        if i is None:
+            return False
+        j = es[i]["i"] - 1
+        new = es[i]["c"][j][-1][1]
+        es[i]["c"][j][-1][1] = 1
+        es[i]["bk"][j] = [1 if s == new else s for s in es[i]["bk"][j]]
+        es[i]["its"] = [t for t in es[i]["its"] if t[0] != new]
+        es[i]["r"] = 1
+        return True
+
+    def seq_address(es):             # a surviving list / pool element shows up at another address
+        i = pick(es, lambda e: e["op"] == "append" and e["kind"][e["i"] - 1] != "array" and len(e["c"][e["i"] - 1]) >= 2)
+        if i is None:
+            return False
+        es[i]["c"][es[i]["i"] - 1][0][2] = 4242
+        return True
+
+    def seq_iterator(es):
+        i = pick(es, lambda e: len(e["its"]) >= 1)
+        if i is None:
+            return False
+        es[i]["its"][0][2] = 0
+        return True
+
+    def table_key(es):               # a surviving HashMap entry shows up with another key instance
+        i = pick(es, lambda e: e["op"] in ("append", "insert") and e["kind"][e["i"] - 1] == "hashmap" and len(e["c"][e["i"] - 1]) >= 2
+                 and e["c"][e["i"] - 1][0][4] != e["c"][e["i"] - 1][-1][4])
+        if i is None:
+            return False
+        j = es[i]["i"] - 1
+        es[i]["c"][j][0][4] = es[i]["c"][j][-1][4]
+        return True
+
+    cases = [("unchanged", "seq", lambda es: True, None), ("unchanged", "table", lambda es: True, None),
+             ("unchanged", "map", lambda es: True, None),
+             ("identity", "seq", seq_identity, ":identity")]
+    if prop == "C04":
+        cases += [("destroyed+1", "seq", bump("lt", 1), ":balance"), ("error", "seq", bump("lt", 4), ":lifetime-error"),
+                  ("deadheld", "seq", setfield("ld", 1, lambda e: e["op"] == "append"), ":destroyed-but-held"),
+                  ("quiescent", "seq", setfield("q", 1, lambda e: e["op"] == "fini"), ":not-quiescent"),
+                  ("adopted", "seq", seq_adopted, ":adopted-instance"),
+                  ("sharedkey", "table", table_key, ":shared-instance"),
+                  ("destroyed+1", "table", bump("lt", 1), ":balance"),
+                  ("destroyed+1", "map", setfield("ld", 1, lambda e: e["op"] == "insert"), ":destroyed-but-held"),
+                  ("quiescent", "map", setfield("q", 2, lambda e: e["op"] == "fini"), ":not-quiescent")]
+    else:
+        cases += [("address", "seq", seq_address, ":address"), ("iterator", "seq", seq_iterator, ":iterator"),
+                  ("inplace", "seq", lambda es: bump("lt", 2)([e for e in es if e["op"] == "reset" or e["kind"][e["i"] - 1] == "poollist"]), ":inplace"),
+                  ("iterator", "table", seq_iterator, ":iterator"),
+                  ("inplace", "table", lambda es: bump("lt", 3)([e for e in es if e["op"] == "reset" or (e["kind"][e["i"] - 1] == "poolmap" and e["op"] == "append")]), ":inplace"),
+                  ("iterator", "map", setfield("kept", [5, 1], lambda e: e["op"] == "insert"), ":iterator")]
+    ok = True
+    for name, fam, fn, expect in cases:
+        es = json.loads(json.dumps(evs[fam]))
+        if not fn(es):
+            vlib.log("selftest %-12s %-6s could not be applied" % (name, fam))
+            ok = False
+            continue
+        mism, done, r = validate(fam, es, name.replace("+", "p"))
+        if expect is None:
+            good = done and not mism and not r.broken
+        else:
+            good = bool(mism) and mism[0][1].endswith(expect)
+        vlib.log("selftest %-12s %-6s expect=%-22s first mismatches=%s %s" % (name, fam, expect, mism[:2], "" if good else "  <-- UNEXPECTED " + (r.broken or "")[:300]))
+        ok = ok and good
+    vlib.log("SELFTEST %s property=%s" % ("OK" if ok else "FAILED", prop))
+    return 0 if ok else 2
+
+
+def selftest(ctx):
+    return selftest_prop(ctx, "C04")
